@@ -331,10 +331,45 @@ def subquery_operand_cases():
     return [{"kind": "sq", "order": None, "spec": x} for x in out]
 
 
+def rejoin_cases():
+    """an un-aliased table joined to itself while real tables named like the candidate aliases (t2, t3) are sources too"""
+    sel = lambda **kw: dict({"k": "sel", "cls": "SQLLiteQuery", "joins": []}, **kw)
+    on = lambda i, j, c="a": ["on", ["t", ["basic", "eq", F(c, i), F(c, j), None]]]
+    specs = [
+        sel(**{"from": [T("t")], "joins": [["inner", T("t2"), on(0, 1)], ["left", T("t"), on(0, 2, "id")]],
+               "selects": [["t", F("id", 0)], ["t", F("b", 1)], ["t", F("b", 2, "again")]]}),
+        sel(**{"from": [T("t"), T("t2")], "joins": [["left_outer", T("t"), on(0, 2, "id")]],
+               "selects": [["t", F("id", 0)], ["t", F("c", 1)], ["t", F("c", 2, "again")]],
+               "where": ["t", ["basic", "eq", F("a", 0), F("a", 1), None]]}),
+        sel(**{"from": [T("t")], "joins": [["inner", T("t2"), on(0, 1)], ["inner", T("t3"), on(0, 2)], ["inner", T("t"), on(0, 3, "id")],
+                                            ["left", T("t"), on(3, 4, "id")]],
+               "selects": [["t", F("id", 0)], ["t", F("b", 1)], ["t", F("b", 2, "b3")], ["t", F("b", 3, "b4")], ["t", F("b", 4, "b5")]]}),
+        sel(**{"from": [T("t")], "joins": [["inner", T("u", "t2"), on(0, 1)], ["left", T("t"), on(0, 2, "id")]],
+               "selects": [["t", F("id", 0)], ["t", F("b", 1)], ["t", F("b", 2, "again")]]}),
+    ]
+    return [{"kind": "sq", "order": o, "spec": x} for x in specs for o in (None, 11)]
+
+
+def negative_cases():
+    """unary minus over every kind of compound operand, shifts included (-(a>>1) is not -a>>1 for odd a)"""
+    sel = lambda **kw: dict({"k": "sel", "cls": "SQLLiteQuery", "joins": []}, **kw)
+    a, b = F("a", 0), F("b", 0)
+    ar = lambda op, l, r: ["arith", op, l, r, None]
+    terms = [["neg", ar(op, a, r)] for op, r in (("rshift", I(1)), ("rshift", I(2)), ("lshift", I(1)), ("mul", b), ("div", I(2)),
+                                                 ("add", b), ("sub", b), ("rshift", b))]
+    terms += [["neg", ["neg", a]], ar("sub", b, ["neg", ar("rshift", a, I(1))]), ar("mul", ["neg", ar("rshift", a, I(1))], I(3)),
+              ar("rshift", ["neg", a], I(1)), ar("add", ar("rshift", a, I(1)), b), ar("rshift", ar("add", a, b), I(1))]
+    out = [sel(**{"from": [T("t")], "selects": [["t", F("id", 0)], ["t", a]] + [["t", t] for t in terms[:7]]}),
+           sel(**{"from": [T("v")], "selects": [["t", F("id", 0)], ["t", a], ["t", b]] + [["t", t] for t in terms[7:]]})]
+    for t in terms[:3] + terms[9:11]:
+        out.append(sel(**{"from": [T("u")], "selects": [["t", F("id", 0)], ["t", a]], "where": ["t", ["basic", "lt", t, I(-1), None]]}))
+    return [{"kind": "sq", "order": None, "spec": x} for x in out]
+
+
 def corpus():
     sel = lambda **kw: dict({"k": "sel", "cls": "SQLLiteQuery", "joins": []}, **kw)
     cnt = ["func", "COUNT", [["star", None]], None]
-    return subquery_operand_cases() + brace_cases() + empty_in_cases() + correlated_cases() + window_frame_cases() + form_cases() + naming_cases() + not_cases() + [
+    return rejoin_cases() + negative_cases() + subquery_operand_cases() + brace_cases() + empty_in_cases() + correlated_cases() + window_frame_cases() + form_cases() + naming_cases() + not_cases() + [
         # F1: GROUP BY replaced by the select alias "b", which SQLite binds to the column t.b
         {"kind": "sq", "order": None, "spec": sel(
             **{"from": [T("t")], "selects": [["t", ["arith", "add", F("a", 0), I(1), "b"]], ["t", cnt]],
@@ -427,8 +462,8 @@ def _sub_arith_operand(spec):
         if t[0] == "arith" and any(isinstance(x, list) and x and x[0] == "sub" for x in (t[2], t[3])):
             found.append(1)
     for it in sp.all_items(spec):
-        if it[0] == "t":
-            sp.walk_terms(it[1], f)
+        for t_ in sp.item_terms(it):
+            sp.walk_terms(t_, f)
     return bool(found)
 
 
